@@ -204,16 +204,26 @@ func GenCase(tape *sim.Tape, crashBias bool) *Case {
 	case "inplace-dir":
 		genDir(tape, t, "src", 1+tape.Draw(2), false, &counter)
 		iv.Recursive = true
-		if tape.Draw(2) == 0 {
+		switch tape.Draw(5) {
+		case 0:
 			iv.Inputs, iv.Output = []string{"src/"}, "src/"
-		} else {
+		case 1:
 			iv.Inputs, iv.Output = []string{"src"}, "./"
+		case 2: // the same directory spelled differently
+			iv.Inputs, iv.Output = []string{"src/"}, "./src/"
+		case 3:
+			iv.Inputs, iv.Output = []string{"./src/"}, "src/../src/"
+		case 4:
+			iv.Inputs, iv.Output = []string{"src"}, "@ROOT@/"
 		}
 	case "inplace-bundle":
 		ext := []string{"js", "css", "html"}[tape.Draw(3)]
 		a, b := one("", []string{ext}, true), one("", []string{ext}, true)
 		iv.Bundle, iv.Inputs = true, []string{a, b}
-		iv.Output = []string{a, b}[tape.Draw(2)]
+		if tape.Draw(2) == 0 {
+			iv.Inputs = append(iv.Inputs, one("", []string{ext}, true))
+		}
+		iv.Output = iv.Inputs[tape.Draw(len(iv.Inputs))]
 	case "separate-file":
 		f := one("", minifiableExts, true)
 		iv.Inputs, iv.Output = []string{f}, "out."+extOf(f)
@@ -232,7 +242,14 @@ func GenCase(tape *sim.Tape, crashBias bool) *Case {
 	case "sync-inplace":
 		genDir(tape, t, "src", 1, true, &counter)
 		iv.Recursive, iv.Sync = true, true
-		iv.Inputs, iv.Output = []string{"src/"}, "src/"
+		switch tape.Draw(4) {
+		case 0, 1:
+			iv.Inputs, iv.Output = []string{"src/"}, "src/"
+		case 2: // the same directory spelled differently
+			iv.Inputs, iv.Output = []string{"src/"}, "./src/../src/"
+		case 3:
+			iv.Inputs, iv.Output = []string{"src"}, "@ROOT@/"
+		}
 	case "alias-symlink":
 		f := one("", minifiableExts, true)
 		link := "link." + extOf(f)
